@@ -963,8 +963,9 @@ def plan(run):
     ncfg = 2 if quick else 8
     for _ in range(ncfg):
         # g(r): 2D/3D, orthogonal and triclinic, 1-4 species, 1-2 frames
-        for d, cell, K in ([(2, "tri", 2), (3, "orth", 3)] if quick else [(2, "orth", 1), (2, "tri", 2), (3, "orth", 3), (3, "tri", 4), (3, "cubic", 2)]):
-            cfg = gen_config(rng, d, rng.randint(10, 16), K=K, T=(rng.choice([2, 3]) if cell == "tri" else rng.choice([1, 2])), cell=cell, shear=True)
+        for d, cell, K in ([(2, "tri", 2), (3, "orth", 3), (2, "orth", 5)] if quick else
+                           [(2, "orth", 1), (2, "tri", 2), (3, "orth", 3), (3, "tri", 4), (3, "cubic", 2), (3, "orth", 5), (2, "tri", 6)]):
+            cfg = gen_config(rng, d, rng.randint(max(10, 3 * K), max(16, 3 * K + 2)), K=K, T=(rng.choice([2, 3]) if cell == "tri" else rng.choice([1, 2])), cell=cell, shear=True)
             add("gr", cfg, {"rdelta": rng.choice(["0.113", "0.207", "0.151"])}, reps=reps)
         # S(q): orthogonal cells
         for d, cell, K in ([(2, "orth", 2), (3, "orth", 3)] if quick else [(2, "orth", 1), (2, "orth", 2), (3, "orth", 3), (3, "cubic", 2)]):
